@@ -162,6 +162,7 @@ class Unit:
                 sp = self.src(s.args[0]).find_const(s.args[1])
                 notes = Notes()
                 txt = apply_rules(sp.text, ['R8'], notes)
+                txt = self._apply_substs(txt, s, notes)
                 if re.search(r':\s*&str\b', txt):
                     txt = re.sub(r':\s*&str\b', ": &'static str", txt, count=1)
                     notes.add('W', "elided lifetime of a const &str written out ('static)")
@@ -248,6 +249,24 @@ class Unit:
         txt = apply_rules(txt, rules, notes, self.extra_log_macros)
         txt = self._apply_substs(txt, s, notes)
         txt = _slice_adapters(txt, notes)
+        for (nm, arg, lines, nth) in s.subs:
+            if nm == 'droptail':
+                # the function is under contract only up to (and including) the statement that contains the anchor: the rest
+                # of its body is dropped and replaced by a call that returns an arbitrary value.  Sound for obligations
+                # located in the kept prefix; nothing may be claimed about the function's result.
+                anc = _anchor(arg)
+                pos = txt.find(anc)
+                if pos < 0:
+                    notes.add('LOST-ANCHOR', '@droptail `%s`' % anc)
+                    continue
+                m2 = mask_text(txt)
+                fo, bo = _fn_sig_parts(txt, m2)
+                bc = match_close(m2, bo)
+                semi = find_at_depth0(m2, pos, bc, ';')
+                if semi < 0:
+                    raise ExtractError('@droptail: no statement end after anchor')
+                txt = txt[:semi + 1] + '\n        vf_dropped_tail()\n    ' + txt[bc:]
+                notes.add('DROPTAIL', 'body after `%s` dropped (not under contract): %s' % (anc, ' '.join(lines).strip()))
         rewritten = txt
         assumed = s.opt('assumed_from')
         if assumed:
@@ -680,7 +699,7 @@ def weave(txt, s, notes, canary=False):
             attr_lines.append((arg + ' ' + body).strip())
         elif name == 'top':
             inserts.append((body_open + 1, '\n' + body + '\n'))
-        elif name == 'subst':
+        elif name in ('subst', 'droptail'):
             pass
         else:
             raise ExtractError('unknown directive @%s' % name)
